@@ -394,10 +394,10 @@ def cmp3d_row(im, i, r, tol):
     if not close(im['av'][i], avs[k], tol, tol):
         out.append('av at distance %d: implementation %r model %r' % (k, im['av'][i], float(avs[k])))
     ci, cm = canon_chi(im['chi2'][i]), canon_chi(grid[k])
-    if (ci == 'HUGE') != (cm == 'HUGE') or (ci != 'HUGE' and not close(ci, cm, max(tol, 1e-7), 1e-8)):
+    if (ci == 'HUGE') != (cm == 'HUGE') or (ci != 'HUGE' and not close(ci, cm, max(tol * 10, 1e-7), 1e-8)):
         out.append('chi2 at distance %d: implementation %r model %r' % (k, im['chi2'][i], cm if cm == 'HUGE' else float(cm)))
     fin = [float(g) for g in grid if canon_chi(g) != 'HUGE']
-    if fin and ci != 'HUGE' and ci > min(fin) + 1e-7 * (1 + min(fin)):
+    if fin and ci != 'HUGE' and ci > min(fin) + max(tol * 10, 1e-7) * (1 + min(fin)):
         out.append('chi2 %r is not the grid minimum %r' % (ci, min(fin)))
     return out, k
 
